@@ -66,5 +66,5 @@ claim("C18",
   "NOT decided: that IsInSetSmart admits exactly the covered paths for all sets × paths up to depth 4 (value-level behaviour of a string algorithm; a bounded enumeration would be testing). Only the structural skeleton above is claimed.",
   "DESIGN.md §4 C18")
 
-for pid in ["C02","C10","C11","C12","C13","C14","C15","C16","C17","C18","C19","C20"]:
+for pid in [p for p in ["C%02d"%i for i in range(1,21)] if p not in CLAIMS]:
     na(pid, "check under construction in this session (design in DESIGN.md section 4); not yet claimed")
